@@ -30,15 +30,15 @@ func TestMain(m *testing.M) {
 }
 
 type sample struct {
-	Suite        string
-	User         string
-	PasswordLen  int
-	KG           bool
-	Priv         uint8
-	Lookup       bool
-	Outcome      string
-	Commands     []string
-	SIK          string
+	Suite       string
+	User        string
+	PasswordLen int
+	KG          bool
+	Priv        uint8
+	Lookup      bool
+	Outcome     string
+	Commands    []string
+	SIK         string
 }
 
 // runCase performs one handshake + commands and returns an error describing a
